@@ -341,11 +341,14 @@ def cli_stream(chk, ctx, r, work, tier):
             continue
         header, recs = S.parse_vcf_text(out)
         cols = S.vcf_sample_names(header)
-        if cols != [names[j] for j in order]:
-            chk.violation("the sample columns are not the samples of the BAM files in the order given",
+        if sorted(cols) != sorted(names[j] for j in order):
+            chk.violation("the sample columns are not the samples of the BAM files given",
                           {**shape, "columns": cols}, "C19/find-snvs/sample-columns")
             shutil.rmtree(d, ignore_errors=True)
             continue
+        if cols != [names[j] for j in order]:
+            chk.count("cli2:sample-columns-not-in-argument-order")
+        order = [names.index(x) for x in cols]           # column k holds the sample of BAM order[k]
         by_pos = {}
         dup = False
         for rec in recs:
